@@ -98,9 +98,46 @@ def _round_trip_cases():
                                  "generic": False, "round_trip": True, "always_oracle": True})
 
 
+def _multi_operand_cases():
+    """instructions with THREE OR MORE qubit operands next to the markers, in every operand order relative to the cut wire(s): the
+    operands of one instruction below / on / above a cut wire in any order (first and last operand below it and a middle one above, the
+    cut wire itself as first / middle / last operand after its marker, ...), controlled gates whose operand order matters (ccx, cswap,
+    rccx, c3x) and a three-qubit unitary; a second marker on another wire in half of the cases — deterministic, oracle on every case"""
+    W = lambda q: {"name": "cut_wire", "qubits": [q]}
+    G = lambda n, *qs, **kw: dict({"name": n, "qubits": list(qs)}, **kw)
+    R = lambda n, t, q: {"name": n, "qubits": [q], "params": [t]}
+    ang = [0.3, 0.9, 1.4, 2.1]
+    names3 = ["ccx", "cswap", "rccx"]
+    k = 0
+    for nq in (3, 4):
+        pre = [R("ry", ang[q], q) for q in range(nq)] + [G("cx", q, q + 1) for q in range(nq - 1)]
+        for w in range(nq):
+            for tri in itertools.permutations(range(nq), 3):
+                if nq == 4 and (k + w) % 2:   # (half of the 4-qubit placements: the other half is covered by the other cut wires' turn)
+                    k += 1
+                    continue
+                name = names3[k % 3]
+                g = G(name, *tri) if (k % 7) else {"name": "unitary", "qubits": list(tri), "params": [1000 + k, 3]}
+                w2 = (w + 1 + k % (nq - 1)) % nq
+                instrs = pre + [W(w), R("rz", 0.4, w)] + ([W(w2)] if k % 2 else []) + [g, R("rx", 0.7, tri[1])] \
+                    + ([W(w), G("h", w)] if k % 5 == 0 else [])
+                obs = [{"l": "ZXYZ"[:nq], "p": 0}, {"l": "YZZX"[:nq], "p": 0}, {"l": "ZZZZ"[:nq], "p": 0}, {"l": "XYIZ"[:nq], "p": 0}]
+                yield ("transform", {"nq": nq, "qregs": [nq] if k % 3 else [1] * nq, "instrs": instrs, "wrap": bool(k % 2), "cregs": [],
+                                     "obs": obs, "generic": False, "always_oracle": True})
+                k += 1
+    # four operands: every order of the operands of a triply-controlled X around one cut wire
+    pre = [R("ry", ang[q], q) for q in range(4)] + [G("cx", q, q + 1) for q in range(3)]
+    for j, perm in enumerate(itertools.permutations(range(4))):
+        w = j % 4
+        instrs = pre + [W(w), R("rz", 0.4, w), G("c3x", *perm), R("rx", 0.7, perm[2])]
+        yield ("transform", {"nq": 4, "qregs": [4], "instrs": instrs, "wrap": bool(j % 2), "cregs": [],
+                             "obs": [{"l": "ZXYZ", "p": 0}, {"l": "YZZX", "p": 0}, {"l": "ZZZZ", "p": 0}], "generic": False, "always_oracle": True})
+
+
 def cases(rng, tier):
     yield from _legal_contents_cases()
     yield from _round_trip_cases()
+    yield from _multi_operand_cases()
     N = 160 if tier == "quick" else 2500
     for _ in range(N):
         nq = rng.randint(1, 4)
